@@ -85,7 +85,17 @@ G6 == << GDoc("G6", "self-tuple", ("T" :> SObj(Props2("v", SInt, "t", STuple(<<S
          GDoc("G6", "self-fixed-array", ("T" :> SObj(Props1("a", SFixed(SRef("T"), 2)), {}))),
          GDoc("G6", "self-enum-variant", ("T" :> SOneOf(<< ExtVar("Leaf", SInt), ExtVar("Node", STuple(<<SRef("T"), SRef("T")>>)) >>))) >>
 
-GUniverse == G1 \o G2 \o G3 \o G5 \o G6
+(* G7: a conversion schema ({type: string, format: "path"}) used as an untagged alternative, as an
+   aliased definition, as a property and as an item: run under conversion settings whose target
+   type declares every subset of {FromStr, Display} *)
+PathS == [type |-> "string", format |-> "path"]
+G7 == << GDoc("G7", "conv-untagged", ("T" :> SOneOf(<< PathS, SInt >>))),
+         GDoc("G7", "conv-untagged-two", ("T" :> SOneOf(<< PathS, [type |-> "string", format |-> "uuid"] >>))),
+         GDoc("G7", "conv-alias", ("T" :> SObj(Props1("p", SRef("P")), {})) @@ ("P" :> PathS)),
+         GDoc("G7", "conv-nested-untagged", ("T" :> SObj(Props1("u", SRef("U")), {})) @@ ("U" :> SOneOf(<< SRef("P"), SBool >>)) @@ ("P" :> PathS)),
+         GDoc("G7", "conv-prop-item", ("T" :> SObj(Props2("p", PathS, "v", SArr(PathS)), {"p"}))) >>
+
+GUniverse == G1 \o G2 \o G3 \o G5 \o G6 \o G7
 
 (* documents that are inside the supported fragment *)
 SupportedIds == { <<"G2", "scalars">>, <<"G2", "containers">>, <<"G2", "tuple2">>, <<"G2", "nested-struct">>,
